@@ -44,12 +44,13 @@ impl Opts {
     pub fn cli_args(&self) -> Vec<String> {
         let mut v = vec![];
         if self.flatten { v.push("--flatten-components=true".to_string()) }
-        if self.decompose { v.push("--decompose-components=true".to_string()) }
-        if self.decompose_transformed { v.push("--decompose-transformed-components=true".to_string()) }
+        if self.decompose { v.push("--decompose-components".to_string()) }
+        if self.decompose_transformed { v.push("--decompose-transformed-components".to_string()) }
         if self.no_prefer_simple { v.push("--prefer-simple-glyphs=false".to_string()) }
         if self.keep_direction { v.push("--keep-direction".to_string()) }
         if self.no_production_names { v.push("--no-production-names".to_string()) }
         if self.skip_features { v.push("--skip-features".to_string()) }
+        match self.propagate_anchors { Some(true) => v.push("--propagate-anchors=true".to_string()), Some(false) => v.push("--propagate-anchors=false".to_string()), None => {} }
         v
     }
 }
